@@ -89,6 +89,9 @@ func TestVerifC16(t *testing.T) {
 				tc{"allowed-here-forbidden-elsewhere", "allowed-ns", "forbidden-ns", false, header, true, false, ""},
 				tc{"allowed-everywhere", "allowed-ns", "plain-allowed", false, header, false, true, ""},
 				tc{"forbidden-here-only/translation-configured", "forbidden-ns", "", true, header, true, false, ""},
+				// names that differ from an allowed one only by case or padding are different namespaces
+				tc{"look-alike-case-here-only", "ALLOWED-NS", "", false, header, true, false, ""},
+				tc{"look-alike-padded-here-only", "allowed-ns ", "", false, header, true, false, ""},
 			)
 		}
 		// translation on, no bypass header: remote names are judged after translation
